@@ -588,6 +588,47 @@ func runC08(c *Ctx) {
 	c08R3(c)
 	c08R4(c)
 	c01R6(c, "C08.R1")
+	c08AgentProxy(c)
+}
+
+// c08AgentProxy (C08.R7): the agent's HTTP reverse proxy is the library's
+// single-host proxy. Its director keeps URL.Path and URL.RawPath consistent
+// (escaped request paths reach the service as sent); a hand-written director
+// or Rewrite hook in agent/reverseproxy has to redo that and is not accepted.
+func c08AgentProxy(c *Ctx) {
+	p := c.P
+	made, custom := 0, []string{}
+	var pos token.Pos
+	for _, top := range pkgFuncs(p, "agent/reverseproxy") {
+		for _, fn := range withAnon(top) {
+			allInstrs(fn, func(i ssa.Instruction) {
+				switch x := i.(type) {
+				case *ssa.Call:
+					if commonName(&x.Call) == "net/http/httputil.NewSingleHostReverseProxy" {
+						made++
+						pos = x.Pos()
+					}
+				case *ssa.Alloc:
+					if pt, ok := x.Type().Underlying().(*types.Pointer); ok && pt.Elem().String() == "net/http/httputil.ReverseProxy" {
+						custom = append(custom, "a ReverseProxy literal at "+p.pos(x.Pos()))
+					}
+				case *ssa.FieldAddr:
+					if pt, ok := x.X.Type().Underlying().(*types.Pointer); ok && pt.Elem().String() == "net/http/httputil.ReverseProxy" {
+						fv, _ := fieldVarOf(x)
+						if fv.Name() == "Director" || fv.Name() == "Rewrite" {
+							for _, r := range *x.Referrers() {
+								if st, ok := r.(*ssa.Store); ok && st.Addr == ssa.Value(x) {
+									custom = append(custom, fv.Name()+" replaced at "+p.pos(st.Pos()))
+								}
+							}
+						}
+					}
+				}
+			})
+		}
+	}
+	c.check(made > 0 && len(custom) == 0, "C08.R7", "agent/reverseproxy/library-single-host-director", pos, "httputil.NewSingleHostReverseProxy with its own director",
+		fmt.Sprintf("the agent's proxy does not use the library director unchanged (%d NewSingleHostReverseProxy calls; %s): escaped paths (RawPath) and query joining are the library's job", made, strings.Join(custom, "; ")))
 }
 
 // c08Director: Director mode, write set {URL.Scheme, URL.Host}.
